@@ -5,7 +5,11 @@ import streams
 
 THEOREMS = ["header_step_shift", "filler_prefix", "unified_section_stops",
             "section_state_independent", "loop_state_independent", "loop_state_independent_nobackup", "loop_fuel_irrelevant",
-            "loop_sum", "run_sum", "unified_two_runs", "concatenation_is_sequence", "text_in_front", "text_after"]
+            "loop_sum", "run_sum", "unified_two_runs", "concatenation_is_sequence", "text_in_front", "text_after",
+            "context_header_scan", "context_sections_sum", "context_run_sum", "context_section_text_after",
+            "context_section_throws", "normal_header_scan", "normal_header_scan_index", "normal_sections_sum",
+            "normal_run_sum_index", "normal_run_sum_operand", "normal_section_text_after", "normal_section_throws",
+            "mixed_concatenation_is_sequence"]
 
 
 def hunks_of(line):
